@@ -1,6 +1,6 @@
 (* Lmmm/Swap.v — C06: hot-swapping the same program is the identity on the output stream. *)
 From Coq Require Import List ZArith NArith Bool Lia.
-From Mimium Require Import StateTree.Model Lmmm.Syntax Lmmm.Ref Lmmm.Compile Lmmm.Machine Lmmm.Wf Lmmm.Spec Lmmm.Base Lmmm.Layout Lmmm.LayoutProg.
+From Mimium Require Import StateTree.Model Lmmm.Syntax Lmmm.Ref Lmmm.Compile Lmmm.Machine Lmmm.Wf Lmmm.HotSwap Lmmm.Spec Lmmm.Base Lmmm.Layout Lmmm.LayoutProg.
 Import ListNotations.
 Local Open Scope N_scope.
 
@@ -13,6 +13,10 @@ Qed.
 
 Theorem plan_none : forall cp, plan (published_skeleton cp) (published_skeleton cp) = None.
 Proof. intros cp. unfold plan. rewrite skel_eqb_same. reflexivity. Qed.
+
+(* hot-swapping a program with an identical skeleton clones the words into a fresh machine *)
+Theorem hot_swap_same : forall cp m, hot_swap cp cp m = Some (mkM (m_words m) 0 []).
+Proof. intros cp m. unfold hot_swap. rewrite plan_none. reflexivity. Qed.
 
 (* cursor at the origin (and, for WASM, storage allocated) *)
 Definition home (d : disc) (cp : cprog) (m : mstate) : Prop :=
@@ -123,6 +127,7 @@ Section Swap.
     - reflexivity.
     - inversion Hsegs as [|? ? Hrows Hsegs']; subst.
       destruct (final_state_home rows t0 m Hh Hrows) as (m1 & Hf & Hh1). rewrite Hf.
+      rewrite hot_swap_same. change (mkM (m_words m1) 0 []) with (swap_same m1).
       rewrite (IH _ (swap_same m1) (home_swap _ _ _ Hh1) Hsegs').
       rewrite (mach_run_app _ _ _ _ _ _ _ _ Hf). unfold outs_of. rewrite map_app.
       rewrite mach_run_swap by (apply Hh1). reflexivity.
@@ -133,13 +138,26 @@ End Swap.
 Theorem swap_identity : forall p cp rows1 rows2 m1,
   compile p = Some cp -> wf_prog p = true -> rows_ok p rows1 -> rows_ok p rows2 ->
   final_state VmD p cp 0%Z rows1 m0 = Some m1 ->
+  hot_swap cp cp m1 = Some (mkM (m_words m1) 0 []) /\
   outs_of (mach_run VmD p cp 0%Z (rows1 ++ rows2) m0)
   = outs_of (mach_run VmD p cp 0%Z rows1 m0) ++
-    outs_of (mach_run VmD p cp (Z.of_nat (length rows1)) rows2 (swap_same m1)).
+    outs_of (mach_run VmD p cp (Z.of_nat (length rows1)) rows2 (mkM (m_words m1) 0 [])).
 Proof.
-  intros p cp rows1 rows2 m1 Hc Hwf Hr1 _ Hf.
+  intros p cp rows1 rows2 m1 Hc Hwf Hr1 _ Hf. split; [apply hot_swap_same|].
   rewrite (swap_identity_gen VmD p cp Hc Hwf rows1 rows2 0%Z m0 m1 (home_init VmD cp) Hr1 Hf).
   unfold outs_of. rewrite map_app. reflexivity.
+Qed.
+
+(* in terms of HotSwap.swap_run: run rows1, hot-swap the same program, run rows2 *)
+Theorem swap_run_identity : forall p cp rows1 rows2,
+  compile p = Some cp -> wf_prog p = true -> rows_ok p rows1 ->
+  exists r, swap_run VmD p cp p cp rows1 rows2 = Some r /\
+    mach_run VmD p cp 0%Z (rows1 ++ rows2) m0 = mach_run VmD p cp 0%Z rows1 m0 ++ r.
+Proof.
+  intros p cp rows1 rows2 Hc Hwf Hr1. unfold swap_run.
+  destruct (final_state_home VmD p cp Hc Hwf rows1 0%Z m0 (home_init VmD cp) Hr1) as (m1 & Hf & Hh).
+  rewrite Hf, hot_swap_same. eexists. split; [reflexivity|].
+  apply (swap_identity_gen VmD p cp Hc Hwf rows1 rows2 0%Z m0 m1 (home_init VmD cp) Hr1 Hf).
 Qed.
 
 (* the whole observable behaviour (words, cursor, trace too), either discipline, any start time *)
